@@ -21,8 +21,21 @@ PARSER_NAME = {"f32": "float32", "i16": "int16", "i8": "int8"}
 MODE_OF = {"float32": "f32", "int16": "i16", "int8": "i8"}
 
 
+# file stems: the default output name of a conversion is derived from the input name, so stems end in the letters of
+# the extensions (e, m, r, c), in a dot-separated inner part, a digit, an upper-case letter, or are an extension
+# themselves; none is "default" / "none" (reserved by the specification for "no explicit name")
+STEMS = ["volume", "frame", "tomogram", "ctf_corr", "mic", "a.b", "x.em.bak", "M", "rec", "em", "mrc", "e", "m", "c",
+         "tilt_1", "vol.mrc", "data.e", "Tomo7.r", "au_1", "stack.em.1"]
+
+
+def pick_stems(rng, k):
+    return rng.sample(STEMS, k)
+
+
 def cfg(init, bases, dt, depth, mode, props=True):
-    lines = ["SPECIFICATION Spec", "CONSTANTS", " InitArrays <- %s" % init, " Bases <- %s" % bases, " Acts <- AllActs",
+    """bases: list of file stems"""
+    lines = ["SPECIFICATION Spec", "CONSTANTS", " InitArrays <- %s" % init,
+             " Bases = {%s}" % ", ".join('"%s"' % b for b in bases), " Acts <- AllActs",
              " TrSet = {TRUE, FALSE}", " DtSet <- %s" % dt, " OwSet = {TRUE, FALSE}", " MaxDepth = %d" % depth,
              ' EmitMode = "%s"' % mode, "INVARIANT TypeOK"]
     if props:
@@ -333,10 +346,12 @@ def gen_float_case(rng, idx, smax):
     if shape[0] == shape[1] == shape[2] and smax > 1:
         shape[rng.randrange(3)] = shape[0] % smax + 1            # non-cubic
     dtype = rng.choice(DT_NAMES)
+    stem, stem2 = rng.sample(STEMS, 2)
     dt = rng.choice(["none", "none", "none"] + ([x for x in DT_NAMES if x != dtype]))
     return {"kind": "float", "id": idx, "shape": shape, "dtype": dtype, "dt": dt, "ext": rng.choice(["mrc", "rec", "em"]),
             "tr": rng.random() < 0.75, "inv": rng.random() < 0.5, "explicit_out": rng.random() < 0.5,
-            "refuse_api": rng.choice(["write", "convert"]), "mseed": rng.randrange(1 << 30)}
+            "refuse_api": rng.choice(["write", "convert"]), "mseed": rng.randrange(1 << 30),
+            "stem": stem, "stem2": stem2}
 
 
 def marker_map(payload, values):
@@ -396,7 +411,7 @@ def run_float(ctx, cases):
             ctx.fail("call_raises", "%s: %s" % (what, err), case, {"op": what, "ext": case["ext"], "dtype": case["dtype"]})
 
         # -- write
-        path = os.path.join(d, "vol." + case["ext"])
+        path = os.path.join(d, case["stem"] + "." + case["ext"])
         kw = {}
         if not case["tr"]:
             kw["transpose"] = False
@@ -444,7 +459,7 @@ def run_float(ctx, cases):
             if doc is not None and case["ext"] in ("em", "mrc"):
                 api = "em2mrc" if case["ext"] == "em" else "mrc2em"
                 oext = "mrc" if case["ext"] == "em" else "em"
-                target = os.path.join(d, ("other." if case["explicit_out"] else "vol.") + oext)
+                target = os.path.join(d, (case["stem2"] if case["explicit_out"] else case["stem"]) + "." + oext)
                 kw = {"invert": case["inv"]} if case["inv"] else {}
                 if case["explicit_out"]:
                     kw["output_name"] = target
@@ -523,7 +538,7 @@ def run_float(ctx, cases):
 def replay(ctx, case):
     # the oracle is re-established on the smallest scope so that a replay is a complete check
     p0 = write_params(ctx, "replay", [[1, 1, 2]], [[1, 1, 2]])
-    ctx.tlc("MC_MapIO", cfg("DeepInit", "OneBase", "NoDt", 2, "none"), name="replay_l1", env={"C11_PARAMS": p0}, workers=2)
+    ctx.tlc("MC_MapIO", cfg("DeepInit", ["volume"], "NoDt", 2, "none"), name="replay_l1", env={"C11_PARAMS": p0}, workers=2)
     if case["kind"] == "transition":
         run_transition(ctx, case, case["variant"], case["vseed"])
     elif case["kind"] == "behaviour":
@@ -571,21 +586,24 @@ def run(ctx):
     sim_shapes = seeded_shapes(rng, ctx.pick(4, 12), 6, ctx.pick(48, 120))
     pp = write_params(ctx, "p", tr_shapes, sim_shapes)
     env = {"C11_PARAMS": pp}
+    stems = pick_stems(rng, 5)
+    one, one3, two = stems[:1], stems[1:2], stems[2:4]
+    ctx.extra["file_stems"] = {"tr": one, "tr3": one3, "deep_sim": two}
     ctx.extra["tr_shapes"] = tr_shapes
     ctx.extra["sim_shapes"] = sim_shapes
 
     if not only or "small" in only:
-        ctx.tlc("MC_MapIO", cfg(ctx.pick("Small9", "Small27"), "OneBase", "AllDt", 2, "none"), name="small", env=env,
+        ctx.tlc("MC_MapIO", cfg(ctx.pick("Small9", "Small27"), one, "AllDt", 2, "none"), name="small", env=env,
                 workers=4)
         ctx.exhaustive["L1_small_depth2"] = True
         dd = ctx.pick(3, 4)
-        ctx.tlc("MC_MapIO", cfg("DeepInit", "TwoBases", "NoDt", dd, "none"), name="deep", env=env, workers=4)
+        ctx.tlc("MC_MapIO", cfg("DeepInit", two, "NoDt", dd, "none"), name="deep", env=env, workers=4)
         ctx.exhaustive["L1_deep_depth%d" % dd] = True
 
     if not only or "tr" in only:
-        res = ctx.tlc("MC_MapIO", cfg("TrInit", "OneBase", "AllDt", 2, "tr"), name="tr", env=env, workers=1)
+        res = ctx.tlc("MC_MapIO", cfg("TrInit", one, "AllDt", 2, "tr"), name="tr", env=env, workers=1)
         # depth 3 with the default data_type: two files exist, so conversions meet an existing target (refusals)
-        res3 = ctx.tlc("MC_MapIO", cfg("Tr3Init", "OneBase", "NoDt", 3, "tr"), name="tr3", env=env, workers=1)
+        res3 = ctx.tlc("MC_MapIO", cfg("Tr3Init", one3, "NoDt", 3, "tr"), name="tr3", env=env, workers=1)
         trs = res.records + res3.records
         if len(trs) < 2000:
             raise core.MachineryError("tr run emitted only %d transitions" % len(trs))
@@ -620,7 +638,7 @@ def run(ctx):
 
     if not only or "sim" in only:
         nsim = ctx.pick(20, 400)
-        res = ctx.tlc("MC_MapIO", cfg("SimInit", "TwoBases", "AllDt", 8, "hist", props=False), name="sim", env=env,
+        res = ctx.tlc("MC_MapIO", cfg("SimInit", two, "AllDt", 8, "hist", props=False), name="sim", env=env,
                       simulate=nsim, depth=10, seed=ctx.seed + 1, workers=1)
         seen = set()
         nb = 0
